@@ -471,6 +471,7 @@ def make_faults():
 
 # ------------------------------------------------------------------ native: each optional ODF encoding feature on a real file
 FEATURE_TABLES = [
+    [["10\u00a0000", "\u5c71\u7530\u3000\u592a\u90ce"], ["a\u2009b", "x\u00a0\u00a0y"]],  # non-ASCII spaces are ordinary characters
     [["a", "a", "b"], ["", "", "x"], ["1", "2", "3"]],
     [["same", "row"], ["same", "row"], ["same", "row"], ["other", "row"]],
     [["two  blanks", "tab\there"], ["line\nbreak", "  lead"]],
@@ -576,6 +577,26 @@ def native_features():
             except Exception as e:  # noqa
                 failures.append(dict(key="ods-fault-encoding", what="content.xml declaring %s raised %s: %s" % (enc_name, type(e).__name__, e),
                                      args=dict(encoding=enc_name)))
+        # documents without a spreadsheet body / without any sheet / with one sheet less than requested
+        one = encode_document([("s", [["a"]])])
+        import re as _re2
+        no_tables = _re2.sub(r"<table:table .*</table:table>", "", one)
+        no_body = _re2.sub(r"<office:spreadsheet>.*</office:spreadsheet>", "<office:text/>", one)
+        for what, doc, sheet in (("one sheet, sheet 2 requested", one, 2), ("one sheet, sheet 3 requested", one, 3), ("no sheet at all", no_tables, 1),
+                                 ("no sheet at all, sheet 2 requested", no_tables, 2), ("no spreadsheet body (a text document)", no_body, 1),
+                                 ):
+            n += 1
+            p = os.path.join(d, "missing_sheet.ods")
+            write_ods(p, doc)
+            try:
+                got = list(rowio.ods_rows(p, sheet))
+                failures.append(dict(key="ods-missing-sheet", what="%s: read as %r instead of a data format error" % (what, got), args=dict(case=what)))
+            except errors.DataFormatError:
+                pass
+            except Exception as e:  # noqa
+                failures.append(dict(key="ods-missing-sheet", what="%s: raised %s: %s" % (what, type(e).__name__, e), args=dict(case=what)))
+        if no_tables == one or no_body == one:
+            failures.append(dict(key="harness", what="could not build the documents without sheets", args={}))
         # a commented cell: the paragraphs of the office:annotation are not part of the cell's value; covered cells
         # (table:covered-table-cell) take a column like any cell
         n += 1
